@@ -1,12 +1,12 @@
 package core
 
 import (
-	"math/big"
 	"bytes"
 	"encoding/json"
 	"fmt"
 	"io"
 	"math"
+	"math/big"
 	"strconv"
 	"strings"
 	"time"
